@@ -778,6 +778,22 @@ def check_C08(tier):
         rep.case(v["raw"], nontrivial=(not v["wf"]) or len(v["toks"]) >= 2)
         for msg, k in totality(v["raw"]):
             rep.violation(msg, {"input": v["raw"]})
+    # 'x' stands for every character that is not '[', ']', '.', and does not complete a symbol of the grammar:
+    # the vectors are replayed again with x filled from a pool of such characters; in the well-formed region the
+    # outcome kind is the specification's
+    pool = ["\n", "\r", "\t", " ", "\x00", "\\", "'", '"', "(", "{", "}", "*", "?", "^", "$", "|", "%", "é", "\u2028", "②", "\x0b", "\x85"]
+    rng_c = random.Random(seed() * 7 + 8)
+    for v in vectors:
+        if "x" not in v["raw"]:
+            continue
+        raw = "".join(rng_c.choice(pool) if c == "x" else c for c in v["raw"])
+        for msg, k in totality(raw):
+            rep.violation(msg, {"input": raw})
+        if v["wf"]:
+            kind = de.call_decoder(raw)[0]
+            if kind != v["kind"]:
+                rep.violation("decoder(%r) -> %s, specification %s (text with the shape %r)" % (raw, kind, v["kind"], v["raw"]),
+                              {"input": raw})
     for v in vectors[:: max(1, len(vectors) // 3)][:3]:
         rep.sample({"text": v["raw"], "spec_outcome": v["kind"]})
     # symbol-level: symbols outside the grammar, legacy symbols, zero-capacity and H-rich atoms, all flags,
